@@ -289,8 +289,14 @@ func readJSONFaults(t *rapid.T, r *core.SplitMix) {
 	for i, c := range fs.Cols {
 		names[i] = c.Name
 	}
-	enumerateReader(t, r, "ReadJSON", w.Buf, fs, func(rd io.Reader) (fr *obs.Frame, pan interface{}) {
+	// with and without options: an option that names columns turns "no data
+	// at all" into an error of its own and would hide a swallowed read error
+	withOrder := rapid.Bool().Draw(t, "columnorder")
+	enumerateReader(t, r, "ReadJSON", w.Buf, map[string]interface{}{"frame": fs, "column_order_option": withOrder}, func(rd io.Reader) (fr *obs.Frame, pan interface{}) {
 		defer func() { pan = recover() }()
+		if !withOrder {
+			return obs.Of(qframe.ReadJSON(rd)), nil
+		}
 		return obs.Of(qframe.ReadJSON(rd, newqf.ColumnOrder(names...))), nil
 	})
 }
